@@ -147,6 +147,14 @@ class KeywordTask:
                 rec["formula"] = str(z3.simplify(ob.goal))[:400]
             res["obligations"].append(rec)
         res["feas_calls"] = ctx.feas_calls
+        seen = {}
+        for unit_key, cls, origin in ctx.safety:
+            key = (unit_key, cls, origin)
+            seen[key] = seen.get(key, 0) + 1
+        for (unit_key, cls, origin), n in sorted(seen.items()):
+            res["obligations"].append({"name": "%s::%s/S/unreachable:%s@%s" % (self.name, unit_key, cls, origin), "kind": "S",
+                                       "status": "discharged", "solver": "z3", "time_s": 0.0,
+                                       "note": "%s from %s cannot occur (%d path(s))" % (cls, origin, n)})
         if any(o["status"] != "discharged" for o in res["obligations"]):
             # counterexample search on the real code (bounded, directed at this keyword)
             from pyvc import driver
